@@ -3,6 +3,7 @@ from __future__ import annotations
 
 import json
 import math
+import re
 from decimal import Decimal
 
 from hypothesis import strategies as st
@@ -39,9 +40,10 @@ ASSUMPTIONS = [
 ]
 FLOORS = {
     'jv:depth>=2': (0.2, 'jv:case'), 'jv:string-escape': (0.2, 'jv:case'), 'jv:non-integer-number': (0.2, 'jv:case'),
+    'jv:lookalike-string': (0.3, 'jv:case'), 'jv:lookalike-key-group': (0.1, 'jv:case'), 'jt:lookalike-string': (0.2, 'jt:case'),
     'jt:escape-sequence': (0.3, 'jt:case'), 'jt:number-frac-or-exp': (0.2, 'jt:case'),
     'xml:namespace': (0.2, 'xml:case'), 'xml:non-element-child': (0.3, 'xml:case'), 'xml:special-char': (0.3, 'xml:case'),
-    'xml:inner-target-with-tail': (0.05, 'xml:case'),
+    'xml:inner-target-with-tail': (0.05, 'xml:case'), 'xh:inner-tail-then-ancestor': (0.3, 'xh:case'),
 }
 
 FN_NS = 'http://www.w3.org/2005/xpath-functions'
@@ -54,6 +56,14 @@ FN_NS = 'http://www.w3.org/2005/xpath-functions'
 def is_xml_char(cp: int) -> bool:
     """XML 1.0 (5th ed.) production [2] Char"""
     return cp in (0x9, 0xA, 0xD) or 0x20 <= cp <= 0xD7FF or 0xE000 <= cp <= 0xFFFD or 0x10000 <= cp <= 0x10FFFF
+
+
+# string content that looks like JSON syntax: numbers (with exponent), literals, brackets
+_LOOKALIKE_RE = re.compile(r'\d[eE][+-]?\d|^-?\d|\b(?:true|false|null|NaN|Infinity)\b|[\[\]{}:,]')
+
+
+def _has_lookalike(s: str) -> bool:
+    return bool(re.search(r'\d[eE][+-]?\d|\b(?:true|false|null)\b|^-?\d+(?:\.\d+)?$|^[\[{].*[\]}]$', s))
 
 
 def _str_feature(s: str) -> str:
@@ -75,6 +85,8 @@ def _str_feature(s: str) -> str:
         return 'non-ascii'
     if s == '':
         return 'empty'
+    if _LOOKALIKE_RE.search(s):
+        return 'syntax-lookalike'
     return 'plain'
 
 
@@ -258,8 +270,20 @@ _XML_CHARS = list('ab zA1') + ['"', '\\', '/', '\n', '\r', '\t', '\x7f', '\x80',
 _TOKENS = ['\\u12', '\\n', '\\"', '\\\\', '&#34;', '&amp;', '</', ']]>', '\\/', 'null', '\\u0041', '\\q', '&#xFFFD;']
 _NON_XML = ['\x00', '\x01', '\x08', '\x0c', '\x1f', '\ufffe', '\uffff', '\ud800', '\udc00', '\udfff']
 
-_xml_string = st.lists(st.one_of(st.sampled_from(_XML_CHARS), st.sampled_from(_XML_CHARS), st.sampled_from(_TOKENS)),
+# strings whose CONTENT looks like JSON syntax (they must come back byte for byte), alone or inside ordinary text
+_LOOKALIKES = ['1e6', '1e+20', '1E5', '1e5', '2e3', '1e-7', '0.5e3', '12E4', '1e400', '-0', '1.0', '0', '100', 'true', 'false', 'null',
+               'NaN', '[1]', '[]', '{"a":1}', '{}', '\\u0041', 'a/b', '</script>', '"q"', '1,2', 'a:1', '-1.5E-3', '0x10', '1e', 'e5']
+_WORDS = ['size', 'bytes', 'a', 'é', 'x', 'is', '=', '~']
+_lookalike_string = st.lists(st.one_of(st.sampled_from(_LOOKALIKES), st.sampled_from(_LOOKALIKES), st.sampled_from(_WORDS)),
+                             min_size=1, max_size=3).flatmap(lambda ps: st.sampled_from([' ', ' ', '', '-']).map(lambda sep: sep.join(ps)))
+# pairs / groups of distinct keys that a text-level rewrite of the serialised JSON would merge or damage
+_LOOKALIKE_KEY_GROUPS = [('1e5', '1E5'), ('1e5', '1e+5'), ('1e5', '100000.0'), ('true', 'True'), ('1.0', '1'), ('-0', '0'),
+                         ('null', 'NULL'), ('1e5', '1E5', '1E+5'), ('[1]', '[ 1 ]'), ('a/b', 'a\\/b'), ('2e3 bytes', '2E3 bytes')]
+
+_xml_string_plain = st.lists(st.one_of(st.sampled_from(_XML_CHARS), st.sampled_from(_XML_CHARS), st.sampled_from(_TOKENS)),
                        max_size=7).map(''.join)
+_xml_string = st.one_of(_xml_string_plain, _xml_string_plain, _lookalike_string,
+                        st.tuples(_xml_string_plain, _lookalike_string).map(lambda t: t[0] + ' ' + t[1]))
 _any_string = st.lists(st.one_of(st.sampled_from(_XML_CHARS), st.sampled_from(_XML_CHARS), st.sampled_from(_TOKENS),
                                  st.sampled_from(_NON_XML)), max_size=7).map(''.join)
 
@@ -296,7 +320,12 @@ _value = st.recursive(
     _atom,
     lambda inner: st.one_of(
         st.lists(inner, max_size=4).map(lambda ms: ['a', ms]),
-        st.lists(st.tuples(_xml_string, inner), max_size=4).map(lambda ps: ['m', _uniq_keys(ps)])),
+        st.lists(st.tuples(_xml_string, inner), max_size=4).map(lambda ps: ['m', _uniq_keys(ps)]),
+        st.lists(inner, max_size=4).map(lambda ms: ['a', ms]),
+        st.lists(st.tuples(_xml_string, inner), max_size=4).map(lambda ps: ['m', _uniq_keys(ps)]),
+        st.tuples(st.sampled_from(_LOOKALIKE_KEY_GROUPS), st.lists(inner, min_size=3, max_size=3),
+                  st.lists(st.tuples(_xml_string, inner), max_size=2)).map(
+            lambda t: ['m', _uniq_keys(list(zip(t[0], t[1])) + t[2])])),
     max_leaves=10)
 json_value_case = st.fixed_dictionaries({'v': _value})
 
@@ -377,6 +406,17 @@ def _value_class(v):
     return 'plain'
 
 
+def _has_key_group(v):
+    if v[0] == 'm':
+        keys = {k for k, _m in v[1]}
+        if any(len(keys & set(g)) >= 2 for g in _LOOKALIKE_KEY_GROUPS):
+            return True
+        return any(_has_key_group(m) for _k, m in v[1])
+    if v[0] == 'a':
+        return any(_has_key_group(m) for m in v[1])
+    return False
+
+
 def judge_json_value(case, rec: Recorder | None = None) -> list[Disc]:
     discs: list[Disc] = []
     v = case['v']
@@ -414,7 +454,9 @@ def judge_json_value(case, rec: Recorder | None = None) -> list[Disc]:
                      (x[0] == 'd' and not float(Decimal(x[1])).is_integer()) for x in leaves)
         classes = ['jv:case'] + (['jv:depth>=2'] if dep >= 2 else []) + (['jv:string-escape'] if esc else []) + \
                   (['jv:non-integer-number'] if nonint else []) + (['jv:empty-sequence'] if any(x[0] == 'e' for x in leaves) else []) + \
-                  (['jv:astral'] if any(x[0] == 's' and any(ord(c) > 0xFFFF for c in x[1]) for x in leaves) else [])
+                  (['jv:astral'] if any(x[0] == 's' and any(ord(c) > 0xFFFF for c in x[1]) for x in leaves) else []) + \
+                  (['jv:lookalike-string'] if any(x[0] == 's' and _has_lookalike(x[1]) for x in leaves) else []) + \
+                  (['jv:lookalike-key-group'] if _has_key_group(v) else [])
         rec.case(['jv', v], nontrivial=dep >= 2 or esc or nonint, sample={'check': 'json_value', 'xpath': xv[:120], 'v': v},
                  classes=classes)
     return discs
@@ -457,7 +499,7 @@ def _json_number_text(draw):
     return sign + ip + frac + exp
 
 
-_CONFUSABLE_KEYS = [('\\n', '\n'), ('\\/', '/'), ('\\u0041', 'A'), ('\\"', '"'), ('\\\\', '\\'), ('\\t', '\t'), ('a', 'A'),
+_CONFUSABLE_KEYS = [tuple(g) for g in _LOOKALIKE_KEY_GROUPS] + [('\\n', '\n'), ('\\/', '/'), ('\\u0041', 'A'), ('\\"', '"'), ('\\\\', '\\'), ('\\t', '\t'), ('a', 'A'),
                     ('\\\\n', '\\n'), ('&#34;', '"'), ('\ufffd', '&#xFFFD;')]
 
 
@@ -479,7 +521,7 @@ def _json_text(draw, depth=0):
     else:
         n = draw(st.integers(0, 3))
         keys = []
-        if draw(st.integers(0, 7)) == 0:
+        if draw(st.integers(0, 4)) == 0:
             # distinct keys that a sloppy escape/unescape step would identify (duplicate detection in xml-to-json)
             keys = list(draw(st.sampled_from(_CONFUSABLE_KEYS)))
         for _ in range(n):
@@ -592,7 +634,8 @@ def judge_json_text(case, rec: Recorder | None = None) -> list[Disc]:
         nested = isinstance(pv, (list, dict)) and any(isinstance(x, (list, dict)) for x in (pv if isinstance(pv, list) else pv.values()))
         classes = ['jt:case'] + (['jt:escape-sequence'] if escs else []) + (['jt:number-frac-or-exp'] if frac else []) + \
                   (['jt:no-verdict'] if not verdict else []) + (['jt:non-xml-char'] if _text_class(pv) == 'non-xml-char' else []) + \
-                  (['jt:nested'] if nested else [])
+                  (['jt:nested'] if nested else []) + \
+                  (['jt:lookalike-string'] if any(isinstance(x, str) and _has_lookalike(x) for k, x in _walk_py(pv) if k != 'member') else [])
         rec.case(['jt', t], nontrivial=verdict and (escs or frac or nested), sample={'check': 'json_text', 't': t}, classes=classes)
     return discs
 
@@ -954,27 +997,11 @@ def _unique_xml_ids(case):
     return case
 
 
-def judge_xml(case, rec: Recorder | None = None) -> list[Disc]:
+def _roundtrip_discs(prefix, top, item, ref, pre, cls, root=None):
+    """serialize(.) of one node, the text through the stdlib parser and through parse-xml, both against the model"""
     discs: list[Disc] = []
-    case = _unique_xml_ids(case)
-    top, elems = _build(case)
-    n = len(elems)
-    idx = case['target'] % (n + 1)        # n = the top node itself
-    doc_target = idx == n
-    spec_e = case['root'] if doc_target else _find_spec(case['root'], idx, [0])
-    ref = _spec_model(spec_e)
-    lx = case['backend'] == 'lxml'
-    pre = [('c', m['v']) if m['k'] == 'c' else ('p', m['tg'], m['v'] or '') for m in case['pre']] \
-        if (lx and case['top'] == 'document' and doc_target) else []
-    feats: set = set()
-    _tree_features(spec_e, feats)
-    inner_tail = (not doc_target) and idx > 0 and bool(spec_e['tl'])
-    cls = 'tail' if inner_tail else 'cr' if 'cr' in feats else 'doc-misc' if pre else 'plain'
-    prefix = f'C17/xml/{case["backend"]}'
-    item = None if doc_target else elems[idx]
-    expr_s = 'serialize(.)'
     text, d = _call(prefix + '/serialize', lambda code: 'doc-misc' if pre and code == 'SENR0001' else cls,
-                    lambda: _ev(expr_s, root=top, item=item))
+                    lambda: _ev('serialize(.)', root=top if root is None else root, item=item))
     if d:
         discs.append(d)
     elif not isinstance(text, str):
@@ -1006,6 +1033,28 @@ def judge_xml(case, rec: Recorder | None = None) -> list[Disc]:
                 df = _xdiff(want, gm)
                 if df:
                     discs.append(Disc(f'{prefix}/roundtrip/{df[0]}', df[1], df[2], f'at {df[3]} {where}'))
+    return discs
+
+
+def judge_xml(case, rec: Recorder | None = None) -> list[Disc]:
+    discs: list[Disc] = []
+    case = _unique_xml_ids(case)
+    top, elems = _build(case)
+    n = len(elems)
+    idx = case['target'] % (n + 1)        # n = the top node itself
+    doc_target = idx == n
+    spec_e = case['root'] if doc_target else _find_spec(case['root'], idx, [0])
+    ref = _spec_model(spec_e)
+    lx = case['backend'] == 'lxml'
+    pre = [('c', m['v']) if m['k'] == 'c' else ('p', m['tg'], m['v'] or '') for m in case['pre']] \
+        if (lx and case['top'] == 'document' and doc_target) else []
+    feats: set = set()
+    _tree_features(spec_e, feats)
+    inner_tail = (not doc_target) and idx > 0 and bool(spec_e['tl'])
+    cls = 'tail' if inner_tail else 'cr' if 'cr' in feats else 'doc-misc' if pre else 'plain'
+    prefix = f'C17/xml/{case["backend"]}'
+    item = None if doc_target else elems[idx]
+    discs += _roundtrip_discs(prefix, top, item, ref, pre, cls)
     if rec is not None:
         classes = ['xml:case', 'xml:' + case['backend'], 'xml:top-' + case['top']] + \
                   (['xml:namespace'] if 'ns' in feats else []) + (['xml:non-element-child'] if feats & {'misc', 'text'} else []) + \
@@ -1017,10 +1066,148 @@ def judge_xml(case, rec: Recorder | None = None) -> list[Disc]:
 
 
 # --------------------------------------------------------------------------
+# (5) serialise histories on ONE source tree: inner elements first, then ancestors / the document
+# --------------------------------------------------------------------------
+
+def _spec_index(e, depth=0, out=None):
+    """[(depth, has_tail, n_descendant_elements)] of the elements in document order"""
+    if out is None:
+        out = []
+    me = len(out)
+    out.append([depth, bool(e['tl']) and depth > 0, 0])
+    for c in e['c']:
+        if c['k'] == 'e':
+            _spec_index(c, depth + 1, out)
+    out[me][2] = len(out) - me - 1
+    return out
+
+
+def _no_cr(e):
+    """CR in text is the known stdlib-serialiser finding of the 'xml' sub-check: keep it out of the histories"""
+    def fx(t):
+        return t.replace('\r', '') if isinstance(t, str) else t
+    e = dict(e, t=fx(e['t']), tl=fx(e['tl']), a=[[a[0], a[1], fx(a[2])] for a in e['a']])
+    e['c'] = [_no_cr(c) if c['k'] == 'e' else dict(c, tl=fx(c.get('tl')), v=fx(c.get('v'))) for c in e['c']]
+    return e
+
+
+_xtext_nocr = st.sampled_from([None, '', 'h', 'x y', '<&>'])
+
+
+@st.composite
+def _xml_history_case(draw):
+    root = _no_cr(draw(_xelem()))
+    if not any(c['k'] == 'e' and c['tl'] for c in root['c']):
+        # mixed content by construction: an inner element followed by tail text (and one nested a level deeper)
+        inner = {'k': 'e', 'ns': None, 'n': 'b', 'a': [], 't': draw(_xtext_nocr), 'c': [], 'tl': draw(st.sampled_from(['t', ' x', '&', 'a;b', '>']))}
+        mid = {'k': 'e', 'ns': draw(st.sampled_from(_NS)), 'n': 'c', 'a': [], 't': None, 'c': [inner], 'tl': draw(st.sampled_from(['u', ' ', 'g;&', ']]>']))}
+        root['c'].insert(draw(st.integers(0, len(root['c']))), mid)
+    idx = _spec_index(root)
+    n = len(idx)
+    k = draw(st.integers(2, 5))
+    tailed = [i for i, x in enumerate(idx) if x[1]]
+    picks = []
+    for _ in range(k):
+        if tailed and draw(st.integers(0, 2)) > 0:
+            picks.append(draw(st.sampled_from(tailed)))
+        else:
+            picks.append(draw(st.integers(0, n)))          # n = the top node (document or root element)
+    if draw(st.integers(0, 9)) < 7:
+        # inner first: deepest elements first, the root and the top node last
+        picks.sort(key=lambda i: (-(idx[i][0] if i < n else -1), i))
+        if draw(st.booleans()):
+            picks.append(0)
+        if draw(st.booleans()):
+            picks.append(n)
+    return {'root': root, 'backend': draw(st.sampled_from(['et', 'et', 'lxml'])), 'top': draw(st.sampled_from(['element', 'document'])),
+            'pre': [], 'targets': picks, 'shared_node_tree': draw(st.booleans())}
+
+
+xml_history_case = _xml_history_case()
+
+
+def _source_dump(top):
+    """own canonical dump of the caller's tree: tag / attrib / text / tail of everything, plus the root's tail"""
+    root = top.getroot() if hasattr(top, 'getroot') else top
+
+    def walk(el):
+        tag = el.tag if not callable(el.tag) else ('#' + getattr(el.tag, '__name__', 'misc'))
+        return [str(tag), sorted((str(k), v) for k, v in el.attrib.items()) if not callable(el.tag) else [],
+                el.text, el.tail, [walk(c) for c in el]]
+    return walk(root)
+
+
+def _dump_diff(a, b, path='/'):
+    """first difference of two dumps: (kind, path, before, after)"""
+    for i, name in ((0, 'tag'), (1, 'attrib'), (2, 'text'), (3, 'tail')):
+        if a[i] != b[i]:
+            return (name + ('-lost' if b[i] is None or b[i] == [] else '-changed'), path + a[0], a[i], b[i])
+    if len(a[4]) != len(b[4]):
+        return ('children-count', path + a[0], len(a[4]), len(b[4]))
+    for i, (x, y) in enumerate(zip(a[4], b[4])):
+        d = _dump_diff(x, y, path + a[0] + f'[{i}]/')
+        if d:
+            return d
+    return None
+
+
+def judge_xml_history(case, rec: Recorder | None = None) -> list[Disc]:
+    discs: list[Disc] = []
+    case = _unique_xml_ids(case)
+    top, elems = _build(case)
+    n = len(elems)
+    idx = _spec_index(case['root'])
+    prefix = f'C17/xml-history/{case["backend"]}'
+    shared = None
+    if case.get('shared_node_tree'):
+        from elementpath import get_node_tree
+        shared = get_node_tree(top)
+    before = _source_dump(top)
+    seen_inner_tail = False
+    inner_then_ancestor = False
+    for step, t in enumerate(case['targets']):
+        i = t % (n + 1)
+        doc_target = i == n
+        spec_e = case['root'] if doc_target else _find_spec(case['root'], i, [0])
+        inner_tail = (not doc_target) and i > 0 and bool(spec_e['tl'])
+        if not inner_tail and seen_inner_tail and (doc_target or idx[i][2] > 0):
+            inner_then_ancestor = True
+        seen_inner_tail = seen_inner_tail or inner_tail
+        feats: set = set()
+        _tree_features(spec_e, feats)
+        cls = 'tail' if inner_tail else 'cr' if 'cr' in feats else 'plain'
+        for d in _roundtrip_discs(prefix, top, None if doc_target else elems[i], _spec_model(spec_e), [], cls, root=shared):
+            d.detail = f'step {step} target {i}: ' + d.detail
+            discs.append(d)
+        after = _source_dump(top)
+        if after != before:
+            df = _dump_diff(before, after)
+            discs.append(Disc(f'{prefix}/source-tree-mutated/{df[0]}', df[2], df[3],
+                              f'step {step}: serialize() of element #{i} changed the caller\'s tree at {df[1]}'))
+            # re-synchronise: continue the history on a freshly built tree
+            top, elems = _build(case)
+            if shared is not None:
+                from elementpath import get_node_tree
+                shared = get_node_tree(top)
+            before = _source_dump(top)
+            if rec is not None:
+                rec.cls('xh:resync')
+    if rec is not None:
+        classes = ['xh:case', 'xh:' + case['backend']] + (['xh:inner-tail-then-ancestor'] if inner_then_ancestor else []) + \
+                  (['xh:inner-tail-step'] if seen_inner_tail else []) + (['xh:shared-node-tree'] if shared is not None else [])
+        rec.case(['xh', case], nontrivial=seen_inner_tail, sample={'check': 'xml_history', 'backend': case['backend'],
+                                                                      'targets': case['targets'], 'n_elements': n}, classes=classes)
+        rec.cls('xh:steps', len(case['targets']))
+    return discs
+
+
+# --------------------------------------------------------------------------
 # module interface
 # --------------------------------------------------------------------------
-_STRATS = {'json_value': json_value_case, 'json_text': json_text_case, 'json_invalid': json_invalid_case, 'xml': xml_case}
-_JUDGES = {'json_value': judge_json_value, 'json_text': judge_json_text, 'json_invalid': judge_json_invalid, 'xml': judge_xml}
+_STRATS = {'json_value': json_value_case, 'json_text': json_text_case, 'json_invalid': json_invalid_case, 'xml': xml_case,
+           'xml_history': xml_history_case}
+_JUDGES = {'json_value': judge_json_value, 'json_text': judge_json_text, 'json_invalid': judge_json_invalid, 'xml': judge_xml,
+           'xml_history': judge_xml_history}
 
 
 def selftest():
@@ -1053,7 +1240,8 @@ def selftest():
 def jobs(tier, seed):
     q = tier == 'quick'
     plan = {'json_value': (4, 1500) if q else (4, 30000), 'json_text': (4, 1500) if q else (5, 30000),
-            'json_invalid': (1, 1000) if q else (1, 20000), 'xml': (5, 1000) if q else (6, 20000)}
+            'json_invalid': (1, 1000) if q else (1, 20000), 'xml': (4, 1000) if q else (4, 20000),
+            'xml_history': (3, 400) if q else (2, 12000)}
     out = []
     for chk, (shards, n) in plan.items():
         for i in range(shards):
